@@ -461,7 +461,7 @@ def shrink_ops(ops):
 
 
 from wiring import Profile
-WPROFILES = [Profile(p_wrap=0.5, n_procs=(1, 2), p_cycle_bias=0.85, fields=(1, 4), p_lazy=0.3),
+WPROFILES = [Profile(p_wrap=0.5, n_procs=(1, 2), p_cycle_bias=0.85, fields=(1, 4), p_lazy=0.3, p_init=0.8, p_initget=0.3, p_short=0.2),
              Profile(p_wrap=0.2, n_procs=(0, 2), p_fault=0.7, n_faults=(1, 2), p_cycle_bias=0.8, p_lazy=0.3, p_valid=0.7)]
 
 
